@@ -140,7 +140,7 @@ def Z(coq):
 
 
 class Ev:
-    def __init__(self, skip_calls=(), cls=None, mod=None, bases=()):
+    def __init__(self, skip_calls=(), cls=None, mod=None, bases=(), repo=None):
         self.skip_calls = set(skip_calls)
         self.counter = 0
         self.pending = []          # (fresh name, res-valued coq term) to bind before the statement
@@ -161,10 +161,26 @@ class Ev:
                     decos = [_u(d) for d in n.decorator_list]
                     if set(decos) <= {"staticmethod"}:
                         self.helpers["self." + n.name] = (n, "staticmethod" in decos, True)
+        self.modconsts = {}
         if mod is not None:
+            # simple module-level constants (bound once at module level) stand for their value
+            counts = {}
+            for n in mod.body:
+                if isinstance(n, ast.Assign):
+                    for t in n.targets:
+                        if isinstance(t, ast.Name):
+                            counts[t.id] = counts.get(t.id, 0) + 1
+                            self.modconsts[t.id] = n.value
+            self.modconsts = {k: v for k, v in self.modconsts.items() if counts[k] == 1}
             for n in mod.body:
                 if isinstance(n, ast.FunctionDef) and not n.decorator_list:
                     self.helpers[n.name] = (n, True, False)
+            if repo is not None:
+                # private functions imported from other modules of the package are helpers too
+                from . import canon_c11 as C
+                for name, fdef in C.Scope(mod=mod, repo=repo).functions.items():
+                    if name not in self.helpers and C.Scope.private(name):
+                        self.helpers[name] = (fdef, True, False)
 
     @staticmethod
     def truthy(v, node=None):
@@ -208,6 +224,8 @@ class Ev:
                 return env[u]
             if u == "np.nan":
                 return V("S", "(None : oq)")
+            if isinstance(e, ast.Name) and u in self.modconsts:
+                return self.expr(self.modconsts[u], {})
             if isinstance(e, ast.Attribute) and e.attr in ("size",):
                 a = self.arg(e.value, env)
                 _need(a.kind == "A", ".size of a %s" % a.kind, e)
@@ -756,7 +774,7 @@ INHERITED_MACHINERY = {
     "__setattr__"}
 
 
-def _naive_fit(cls, mod, out):
+def _naive_fit(cls, mod, out, repo=None):
     fn = find(cls, "fit")
     _need(argnames(fn) == ["self", "y", "X", "fh"], "NaiveForecaster.fit signature")
     init = find(cls, "__init__")
@@ -770,7 +788,7 @@ def _naive_fit(cls, mod, out):
         for con, sname in STRATS:
             sub = []
             for wl_none in (True, False):
-                ev = Ev(skip_calls=("warn", "self._set_y_X", "self._set_fh"), cls=cls, mod=mod)
+                ev = Ev(skip_calls=("warn", "self._set_y_X", "self._set_fh"), cls=cls, mod=mod, repo=repo)
                 env = {"self.strategy": V("STR", static=sname), "self.sp": Z("sp"),
                        "self.window_length": V("NONE") if wl_none else Z("w"), "self": V("SELF"),
                        "y": V("Y", "n"), "self._y": V("Y", "n"), "@cwl_none_ok": True}
@@ -793,7 +811,7 @@ def _naive_fit(cls, mod, out):
                         % (con, sub[0], sub[1]))
         results[what] = "\n".join(arms)
     # an unknown strategy name is rejected
-    ev = Ev(skip_calls=("warn", "self._set_y_X", "self._set_fh"), cls=cls, mod=mod)
+    ev = Ev(skip_calls=("warn", "self._set_y_X", "self._set_fh"), cls=cls, mod=mod, repo=repo)
     env = {"self.strategy": V("STR", static="<unknown>"), "self.sp": Z("sp"), "self.window_length": V("NONE"),
            "y": V("Y", "n"), "self._y": V("Y", "n"), "@cwl_none_ok": True, "self": V("SELF")}
     _need(ev.run(body_of(fn), env, lambda v, e: "(Ok 0)", _no_end("fit")) == "Err",
@@ -806,7 +824,7 @@ def _naive_fit(cls, mod, out):
                "  match s with\n%s\n  end.\n" % results["sp"])
 
 
-def _naive_kernel(cls, mod, out, bases=()):
+def _naive_kernel(cls, mod, out, bases=(), repo=None):
     fn = find(cls, "_predict_last_window")
     _need(argnames(fn)[:2] == ["self", "fh"], "_predict_last_window signature")
     b = body_of(fn)
@@ -822,7 +840,7 @@ def _naive_kernel(cls, mod, out, bases=()):
                   for n in ast.walk(fn)) or xname == wname, "the window of X is used")
     arms = []
     for con, sname in STRATS:
-        ev = Ev(cls=cls, mod=mod, bases=bases)
+        ev = Ev(cls=cls, mod=mod, bases=bases, repo=repo)
         # self.sp_ = check_sp(self.sp) = self.sp wherever fit sets it (Bridge: bridge_fit_sp)
         env = {"self.strategy": V("STR", static=sname), "self.sp": Z("sp"), "self.sp_": Z("sp"),
                wname: V("A", "w"), "fh": V("FH", "hs"), "self.cutoff": V("CUT"),
@@ -899,6 +917,12 @@ def select(t, decide, what):
     while True:
         if t[0] == "IF":
             d = decide(t[1])
+            if d is None:
+                # a validation: one side only raises - the pin describes the accepted inputs
+                if C.only_raises(t[2]) and not C.only_raises(t[3]):
+                    d = False
+                elif C.only_raises(t[3]) and not C.only_raises(t[2]):
+                    d = True
             _need(d is not None, "%s: cannot decide the test" % what, t[1])
             t = t[2] if d else t[3]
         elif t[0] in ("EFF", "OPAQUE", "ASSERT"):
@@ -908,13 +932,40 @@ def select(t, decide, what):
             return effs, t
 
 
-def _decider(table):
-    def decide(test):
-        u = _u(test)
+def _decider(table, none=None):
+    """three-valued evaluation of a test: `table` gives the truth of named sub-tests (by their text),
+    `none` says which expressions are None; datetime isinstance tests are False on an integer
+    time axis; `<arithmetic> is None` is False; not / and / or compose"""
+    none = none or {}
+
+    def val(t):
+        u = _u(t)
         if u in table:
             return table[u]
-        return _integer_time(test)
-    return decide
+        if isinstance(t, ast.Constant) and isinstance(t.value, bool):
+            return t.value
+        if isinstance(t, ast.UnaryOp) and isinstance(t.op, ast.Not):
+            v = val(t.operand)
+            return None if v is None else not v
+        if isinstance(t, ast.BoolOp):
+            vs = [val(x) for x in t.values]
+            if isinstance(t.op, ast.And):
+                return False if any(v is False for v in vs) else (True if all(v is True for v in vs) else None)
+            return True if any(v is True for v in vs) else (False if all(v is False for v in vs) else None)
+        if isinstance(t, ast.Compare) and len(t.ops) == 1 and isinstance(t.ops[0], (ast.Is, ast.IsNot)) \
+                and isinstance(t.comparators[0], ast.Constant) and t.comparators[0].value is None:
+            le = t.left
+            if _u(le) in none:
+                r = none[_u(le)]
+            elif isinstance(le, ast.Constant):
+                r = le.value is None
+            elif isinstance(le, (ast.BinOp, ast.Tuple, ast.List, ast.Dict)):
+                r = False                      # the value of an arithmetic expression / a display is not None
+            else:
+                return None
+            return r if isinstance(t.ops[0], ast.Is) else not r
+        return _integer_time(t)
+    return val
 
 
 def _ret_call(leaf, callee, what):
@@ -932,11 +983,22 @@ def fh_exprs(repo, out):
     with open(os.path.join(repo, "sktime/forecasting/base/_fh.py")) as f:
         mod = ast.parse(f.read())
     cls = find(mod, "ForecastingHorizon")
+    scope = C.Scope(cls=cls, mod=mod, repo=repo)
+
+    def new_horizon(leaf, what):
+        """the leaf returns a new horizon: type(self)(<values>, <is_relative>) - reached through the
+        private constructor-like helper (whatever its name: it is inlined) or written out"""
+        c = leaf[1] if leaf[0] == "RET" else None
+        _need(isinstance(c, ast.Call) and _u(c.func) in ("type(self)", "self.__class__", "ForecastingHorizon"),
+              "%s: expected to return a new horizon type(self)(values, is_relative)" % what, c)
+        return bound_args(c, ["values", "is_relative"])
+    init = find(cls, "__init__")
+    _need(argnames(init)[:3] == ["self", "values", "is_relative"], "ForecastingHorizon.__init__(values, is_relative)")
     # to_indexer(cutoff, from_cutoff=True) = self.to_relative(cutoff).to_pandas() <op> k
     fn = find(cls, "to_indexer")
     _need(argnames(fn) == ["self", "cutoff", "from_cutoff"] and [_u(d) for d in fn.args.defaults] == ["None", "True"],
           "to_indexer signature / defaults")
-    _, leaf = select(C.of(fn), _decider({"from_cutoff": True}), "to_indexer")
+    _, leaf = select(C.of(fn, scope), _decider({"from_cutoff": True}), "to_indexer")
     r = leaf[1] if leaf[0] == "RET" else None
     _need(isinstance(r, ast.BinOp) and _u(r.left) == "self.to_relative(cutoff).to_pandas()",
           "to_indexer returns <relative steps> <op> k", r)
@@ -945,30 +1007,32 @@ def fh_exprs(repo, out):
     # to_absolute on a relative horizon / integer cutoff: self._new(cutoff + self.to_pandas(), is_relative=False)
     fn = find(cls, "to_absolute")
     _need(argnames(fn) == ["self", "cutoff"], "to_absolute signature")
-    _, leaf = select(C.of(fn), _decider({"self.is_relative": True}), "to_absolute")
-    c = _ret_call(leaf, "self._new", "to_absolute")
-    vals, isrel = bound_args(c, ["values", "is_relative"])
+    _, leaf = select(C.of(fn, scope), _decider({"self.is_relative": True}), "to_absolute")
+    vals, isrel = new_horizon(leaf, "to_absolute")
+    c = leaf[1]
     _need(_u(isrel) == "False", "to_absolute returns self._new(<absolute>, is_relative=False)", c)
     out.append("Definition gen_fh_abs (cutoff r : Z) : Z := %s.\n"
                % _int_expr(vals, {"cutoff": "cutoff", "self.to_pandas()": "r"}))
-    _, leaf = select(C.of(fn), _decider({"self.is_relative": False}), "to_absolute")
-    _need(leaf[0] == "RET" and _u(leaf[1]) == "self._new()", "to_absolute is the identity on an absolute horizon")
+    _, leaf = select(C.of(fn, scope), _decider({"self.is_relative": False}), "to_absolute")
+    _need([_u(x) for x in new_horizon(leaf, "to_absolute")] == ["self._values", "self.is_relative"],
+          "to_absolute is the identity on an absolute horizon")
     # to_relative on an absolute horizon / integer cutoff: self._new(self.to_pandas() - cutoff, is_relative=True)
     fn = find(cls, "to_relative")
-    _, leaf = select(C.of(fn), _decider({"self.is_relative": False}), "to_relative")
-    c = _ret_call(leaf, "self._new", "to_relative")
-    vals, isrel = bound_args(c, ["values", "is_relative"])
+    _, leaf = select(C.of(fn, scope), _decider({"self.is_relative": False}), "to_relative")
+    vals, isrel = new_horizon(leaf, "to_relative")
+    c = leaf[1]
     _need(_u(isrel) == "True", "to_relative returns self._new(<relative>, is_relative=True)", c)
     out.append("Definition gen_fh_rel (cutoff t : Z) : Z := %s.\n"
                % _int_expr(vals, {"cutoff": "cutoff", "self.to_pandas()": "t"}))
-    _, leaf = select(C.of(fn), _decider({"self.is_relative": True}), "to_relative")
-    _need(leaf[0] == "RET" and _u(leaf[1]) == "self._new()", "to_relative is the identity on a relative horizon")
+    _, leaf = select(C.of(fn, scope), _decider({"self.is_relative": True}), "to_relative")
+    _need([_u(x) for x in new_horizon(leaf, "to_relative")] == ["self._values", "self.is_relative"],
+          "to_relative is the identity on a relative horizon")
     # to_absolute_int(start, cutoff) = self._new(self.to_absolute(cutoff).to_pandas() - start, is_relative=False)
     fn = find(cls, "to_absolute_int")
     _need(argnames(fn) == ["self", "start", "cutoff"], "to_absolute_int signature")
-    _, leaf = select(C.of(fn), _decider({}), "to_absolute_int")
-    c = _ret_call(leaf, "self._new", "to_absolute_int")
-    vals, isrel = bound_args(c, ["values", "is_relative"])
+    _, leaf = select(C.of(fn, scope), _decider({}), "to_absolute_int")
+    vals, isrel = new_horizon(leaf, "to_absolute_int")
+    c = leaf[1]
     _need(_u(isrel) == "False", "to_absolute_int returns self._new(<integers>, is_relative=False)", c)
     ABS = ("self.to_absolute(cutoff).to_pandas()", "self.to_absolute(cutoff=cutoff).to_pandas()")
     out.append("Definition gen_fh_abs_int (start t : Z) : Z := %s.\n"
@@ -980,10 +1044,14 @@ def window_exprs(repo, out):
     with open(os.path.join(repo, "sktime/forecasting/base/_sktime.py")) as f:
         mod = ast.parse(f.read())
     cls = find(mod, "_BaseWindowForecaster")
+    # private helpers are inlined wherever they live; the hooks below are the roles the pins talk about
+    scope = C.Scope(cls=cls, bases=[find(mod, "_SktimeForecaster")], mod=mod, repo=repo,
+                    keep={"_predict_fixed_cutoff", "_predict_in_sample", "_predict_moving_cutoff",
+                          "_predict_last_window", "_get_last_window", "_shift", "_predict"})
     # _predict: all out-of-sample -> one call at the cutoff; all in-sample -> moving cutoffs; else both
     fn = find(cls, "_predict")
     _need(argnames(fn)[:2] == ["self", "fh"], "_predict signature")
-    t = C.of(fn)
+    t = C.of(fn, scope)
     def is_fh_method(e, name, base="fh"):
         return (isinstance(e, ast.Call) and isinstance(e.func, ast.Attribute) and e.func.attr == name
                 and _u(e.func.value) == base and len(e.args) + len(e.keywords) == 1
@@ -1019,7 +1087,7 @@ def window_exprs(repo, out):
           "_predict: mixed horizons = in-sample .append( out-of-sample )")
     # _predict_fixed_cutoff: one _predict_last_window call, labelled (index site: C03/Site.v)
     fn = find(cls, "_predict_fixed_cutoff")
-    _, leaf = select(C.of(fn), _decider({}), "_predict_fixed_cutoff")
+    _, leaf = select(C.of(fn, scope), _decider({}), "_predict_fixed_cutoff")
     c = _ret_call(leaf, "pd.Series", "_predict_fixed_cutoff")
     data = call_arg(c, 0, "data")
     _need(isinstance(data, ast.Call) and _u(data.func) == "self._predict_last_window"
@@ -1028,7 +1096,7 @@ def window_exprs(repo, out):
     # _predict_in_sample: _predict_moving_cutoff(self._y, CutoffSplitter(<cutoffs>, fh=k, window_length=
     # self.window_length_), ..., update_params=False)
     fn = find(cls, "_predict_in_sample")
-    _, leaf = select(C.of(fn), _decider({}), "_predict_in_sample")
+    _, leaf = select(C.of(fn, scope), _decider({}), "_predict_in_sample")
     c = _ret_call(leaf, "self._predict_moving_cutoff", "_predict_in_sample")
     args = {**{i: a for i, a in enumerate(c.args)}, **_kw(c)}
     y_arg, cv = args.get(0, args.get("y")), args.get(1, args.get("cv"))
@@ -1055,7 +1123,7 @@ def window_exprs(repo, out):
     _need(argnames(fn) == ["self"], "_get_last_window signature")
     starts = set()
     for decide_x in (True, False):
-        _, leaf = select(C.of(fn), _decider({"self._X is not None": decide_x}), "_get_last_window")
+        _, leaf = select(C.of(fn, scope), _decider({}, none={"self._X": not decide_x}), "_get_last_window")
         _need(leaf[0] == "RET" and isinstance(leaf[1], ast.Tuple) and len(leaf[1].elts) == 2, "_get_last_window returns (y, X)")
         y = leaf[1].elts[0]
         _need(isinstance(y, ast.Call) and isinstance(y.func, ast.Attribute) and y.func.attr == "to_numpy"
@@ -1094,10 +1162,10 @@ def poly(repo, out):
     for a in ("regressor", "degree", "with_intercept"):
         _need("self.%s = %s" % (a, a) in inits, "__init__ stores %s verbatim" % a)
     # fit with the default regressor and no exogenous data: the effects, in order
+    scope = C.Scope(cls=cls, mod=mod, repo=repo, keep={"_get_duration", "_set_y_X", "_set_fh"})
     fn = find(cls, "fit")
     _need(argnames(fn) == ["self", "y", "X", "fh"], "PolynomialTrendForecaster.fit signature")
-    effs, leaf = select(C.of(fn), _decider({"X is not None": False, "X is None": True, "self.regressor is None": True,
-                                            "self.regressor is not None": False}), "PolynomialTrendForecaster.fit")
+    effs, leaf = select(C.of(fn, scope), _decider({}, none={"X": True, "self.regressor": True}), "PolynomialTrendForecaster.fit")
     _need(leaf[0] == "RET" and _u(leaf[1]) == "self", "fit returns self")
     _need(all(e[0] == "EFF" for e in effs), "fit: loop / assert in the body")
     st = [e[1] for e in effs]
@@ -1126,8 +1194,7 @@ def poly(repo, out):
     _need(ib.kind == "B", "include_bias expression")
     out.append("Definition gen_poly_include_bias (with_intercept : bool) : bool := %s.\n" % ib.coq)
     # the user's regressor, when given, replaces only the second pipeline step
-    effs2, _ = select(C.of(fn), _decider({"X is not None": False, "X is None": True, "self.regressor is None": False,
-                                          "self.regressor is not None": True}), "PolynomialTrendForecaster.fit")
+    effs2, _ = select(C.of(fn, scope), _decider({}, none={"X": True, "self.regressor": False}), "PolynomialTrendForecaster.fit")
     p2 = effs2[2][1]
     _need(isinstance(p2, ast.Assign) and isinstance(p2.value, ast.Call) and len(p2.value.args) == 2
           and _u(p2.value.args[0]) == _u(pf) and _u(p2.value.args[1]) == "self.regressor",
@@ -1161,14 +1228,13 @@ def poly(repo, out):
     with open(os.path.join(repo, "sktime/utils/datetime.py")) as f:
         gd = find(ast.parse(f.read()), "_get_duration")
     _need(argnames(gd)[:2] == ["x", "y"] and _u(gd.args.defaults[0]) == "None", "_get_duration signature")
-    _, leaf = select(C.of(gd), _decider({"y is None": True}), "_get_duration")
+    _, leaf = select(C.of(gd), _decider({}, none={"y": True}), "_get_duration")
     _need(leaf[0] == "RET" and _u(leaf[1]) == "check_time_index(x)[-1] - check_time_index(x)[0]",
           "_get_duration(index) = index[-1] - index[0]", leaf[1])
     # _predict
     fn = find(cls, "_predict")
     _need(argnames(fn)[:2] == ["self", "fh"], "PolynomialTrendForecaster._predict signature")
-    effs, leaf = select(C.of(fn), _decider({"return_pred_int or X is not None": False, "return_pred_int": False,
-                                            "X is not None": False}), "PolynomialTrendForecaster._predict")
+    effs, leaf = select(C.of(fn, scope), _decider({"return_pred_int": False}, none={"X": True}), "PolynomialTrendForecaster._predict")
     _need(not effs, "_predict: effects")
     c = _ret_call(leaf, "pd.Series", "PolynomialTrendForecaster._predict")
     yp, ix = bound_args(c, ["data", "index"])
@@ -1234,10 +1300,10 @@ def translate(repo):
         _need(isinstance(n, (ast.FunctionDef, ast.Expr)) or (isinstance(n, ast.Assign) and all(
             isinstance(t, ast.Name) and t.id not in INHERITED_MACHINERY for t in n.targets)),
               "unexpected statement in the body of NaiveForecaster", n)
-    _naive_fit(cls, mod, out)
+    _naive_fit(cls, mod, out, repo=repo)
     with open(os.path.join(repo, "sktime/forecasting/base/_sktime.py")) as f:
         base = find(ast.parse(f.read()), "_BaseWindowForecaster")
-    _naive_kernel(cls, mod, out, bases=[base])
+    _naive_kernel(cls, mod, out, bases=[base], repo=repo)
     poly(repo, out)
     return {"C11/Gen.v": "\n".join(out)}
 
